@@ -1,4 +1,4 @@
-import DFV.Lemmas.C03u
+import DFV.Lemmas.C03w
 /-! C03 helper lemmas, part o: a static typing judgment for expression trees (component
 count, labels, mapping, unit of the result) and its soundness: well-typed trees over
 well-formed fields on one mesh are accepted, and the result carries the predicted metadata. -/
@@ -12,11 +12,29 @@ structure Ty where
   vmap : VMap
   unit : Option String
   kind : Kind
+  deriving DecidableEq
 
 def tyOf (f : CF) : Ty := ⟨f.nvdim, f.vdims, f.vmap, f.unit, f.kind⟩
 
 /-- result of an operation that rebuilds the field without unit, with dtype kind `k` -/
 def Ty.res (t : Ty) (k : Kind) : Ty := { t with unit := none, kind := k }
+
+/-- dtype kind of the result of a binary operation between two fields -/
+def kindFF (tl tr : Ty) : Kind := (tl.kind.join tr.kind).ctor
+
+/-- mapping of `l << r`: the merged dict when it covers all components, else the default -/
+def shlMap (M : Mesh) (tl tr : Ty) : VMap :=
+  if (dictUpdate tl.vmap tr.vmap).length = tl.nv + tr.nv then dictUpdate tl.vmap tr.vmap
+  else vmapDefault (tl.nv + tr.nv) M.region.ndim (shlLabels tl.vdims tr.vdims (tl.nv + tr.nv)) M.region.dims
+
+/-- static result of `l << r` -/
+def shlTy (M : Mesh) (tl tr : Ty) : Ty :=
+  ⟨tl.nv + tr.nv, shlLabels tl.vdims tr.vdims (tl.nv + tr.nv), shlMap M tl tr, none, kindFF tl tr⟩
+
+/-- static description of the field `<<` builds from a number / constant vector -/
+def liftTy (M : Mesh) (od : Opd) : Ty :=
+  ⟨liftNv od, Fld.defaultVdims (liftNv od),
+   vmapDefault (liftNv od) M.region.ndim (Fld.defaultVdims (liftNv od)) M.region.dims, none, (rawKind od).ctor⟩
 
 /-- `f` is `Good` and has the statically predicted metadata -/
 def HasMeta (M : Mesh) (g : CF) (t : Ty) : Prop :=
@@ -53,10 +71,11 @@ def unKind : UnOp → Kind → Kind
 def unTy (u : UnOp) (t : Ty) : Ty :=
   { t with unit := if unKeepsUnit u then t.unit else none, kind := unKind u t.kind }
 
-/-- a number exponent NumPy accepts for every base dtype -/
+/-- an exponent (number, constant vector, per-cell array) NumPy accepts for every base dtype:
+not integer-typed, or without negative entries -/
 def PowOk : Opd → Prop
   | .num z k _ => k ≠ .int ∨ 0 ≤ z.re
-  | .arr _ _ _ => False
+  | .arr a k _ => k ≠ .int ∨ a.toList.any (fun z => decide (z.re < 0)) = false
 
 theorem negIntPow_false (kb ke : Kind) (e : NDA GQ) : negIntPow false kb ke e = false := by
   simp [negIntPow]
@@ -64,7 +83,12 @@ theorem negIntPow_false (kb ke : Kind) (e : NDA GQ) : negIntPow false kb ke e = 
 theorem negIntPow_powOk (pw : Bool) (kb : Kind) (od : Opd) (h : PowOk od) :
     negIntPow pw kb (rawKind od) (rawArr od) = false := by
   cases od with
-  | arr a k np => exact absurd h (by simp [PowOk])
+  | arr a k np =>
+    have h' : k ≠ .int ∨ a.toList.any (fun z => decide (z.re < 0)) = false := h
+    simp only [negIntPow, rawKind, rawArr]
+    rcases h' with h' | h'
+    · simp [h']
+    · rw [h']; simp
   | num z k np =>
     have h' : k ≠ .int ∨ 0 ≤ z.re := h
     have hl : (scalarArr z).toList = [z] := rfl
@@ -249,8 +273,11 @@ theorem applyBin_angle_ff (env : Env) (M : Mesh) (hM : MeshOk M) (f o : CF) (hf 
 `HasTy env M e t` predicts component count, labels, mapping, unit and dtype kind of `e`'s value.
 Covers leaves, all unary operations, `+ - * /` (two fields with equal counts or one scalar
 field; number / constant vector of matching length / per-cell array on either side, plain
-or NumPy), `**` with a number exponent, `dot` and `cross` (two fields, or a vector / array
-on either side), `<<` and `angle` between fields, and the binary ufunc calls. -/
+or NumPy), `**` with a number / vector / array / field exponent and `NumPy number ** field`,
+`dot` and `cross` (two fields, or a vector / array on either side), `<<` between fields and
+with a number / constant vector on either side, `angle` with a field / number / vector /
+per-cell array, and the binary ufunc calls incl. `np.power` with the field in either
+position and an unlabelled scalar field first with a vector field second. -/
 inductive HasTy (env : Env) (M : Mesh) : Expr → Ty → Prop
   | leaf (k : Nat) (f : CF) : env.fields[k]? = some f → HasTy env M (.leaf k) (tyOf f)
   | un (u : UnOp) (e : Expr) (t : Ty) : HasTy env M e t → HasTy env M (.un u e) (unTy u t)
@@ -300,5 +327,28 @@ inductive HasTy (env : Env) (M : Mesh) : Expr → Ty → Prop
   | ufuncRF (b : BinOp) (od : Opd) (r : Expr) (t : Ty) : isUArith b = true →
       HasTy env M r t → RawFits M.n t.nv od → UfuncOpd od →
       HasTy env M (.bin b (.opd od) r) (t.res (t.kind.join (rawKind od)).ctor)
+  | powFF (l r : Expr) (tl tr : Ty) (d : Nat) : HasTy env M l tl → HasTy env M r tr →
+      bdim tl.nv tr.nv = some d → (tl.kind ≠ .int ∨ tr.kind ≠ .int) →
+      HasTy env M (.bin .pow l r)
+        ((if tl.nv = 1 ∧ 1 < tr.nv then tr else tl).res (tl.kind.join tr.kind).ctor)
+  | powRF (od : Opd) (r : Expr) (t : Ty) : HasTy env M r t → RawFits M.n t.nv od → UfuncOpd od →
+      isNp od = true → (rawKind od ≠ .int ∨ t.kind ≠ .int) →
+      HasTy env M (.bin .pow (.opd od) r) (t.res (t.kind.join (rawKind od)).ctor)
+  | upowFF (l r : Expr) (tl tr : Ty) : HasTy env M l tl → HasTy env M r tr →
+      bdim tl.nv tr.nv = some tl.nv → (tl.kind ≠ .int ∨ tr.kind ≠ .int) →
+      HasTy env M (.bin .upow l r) (tl.res (tl.kind.join tr.kind).ctor)
+  | upowRF (od : Opd) (r : Expr) (t : Ty) : HasTy env M r t → RawFits M.n t.nv od → UfuncOpd od →
+      (rawKind od ≠ .int ∨ t.kind ≠ .int) →
+      HasTy env M (.bin .upow (.opd od) r) (t.res (t.kind.join (rawKind od)).ctor)
+  | ufuncSF (b : BinOp) (l r : Expr) (tl tr : Ty) : isUfuncBin b = true →
+      HasTy env M l tl → HasTy env M r tr → tl.nv = 1 → 1 < tr.nv → tl.vdims = none →
+      (isPow b = true → tl.kind ≠ .int ∨ tr.kind ≠ .int) →
+      HasTy env M (.bin b l r) ⟨tr.nv, Fld.defaultVdims tr.nv, [], none, (tl.kind.join tr.kind).ctor⟩
+  | shlFR (l : Expr) (od : Opd) (t : Ty) : HasTy env M l t → LiftFits M.n od →
+      HasTy env M (.bin .shl l (.opd od)) (shlTy M t (liftTy M od))
+  | shlRF (od : Opd) (r : Expr) (t : Ty) : HasTy env M r t → LiftFits M.n od → isNp od = false →
+      HasTy env M (.bin .shl (.opd od) r) (shlTy M (liftTy M od) t)
+  | angleFR (l : Expr) (od : Opd) (t : Ty) : HasTy env M l t → AngleFits M.n t.nv od →
+      HasTy env M (.bin .angle l (.opd od)) ⟨1, none, [], some "rad", .float⟩
 
 end DFV.C03
